@@ -38,6 +38,39 @@ def takes_document(P, f):
     return any(any(d in g.arg_ty(i) for d in DOC_TYPES) for i in range(1, g.arg_count + 1)), g
 
 
+def append_chains(P, entry, depth=3):
+    """Ways in which `entry` reaches the WAL append of an added document through ordinary calls of crate functions:
+    list of chains [(fn, call block), ...]; the last element's block calls APPEND itself."""
+    out = []
+
+    def walk(f, chain, d):
+        for b, t in f.calls():
+            cal = callee_of(t)
+            if cal == APPEND:
+                out.append(chain + [(f, b)])
+            elif d > 0 and cal in P.fns and P.fns[cal].crate == "searchlite_core" and cal not in [c[0].path for c in chain] and \
+                    cal != f.path and APPEND in P.reach(cal) and not cal.startswith(N.WAL + "::"):
+                walk(P.fns[cal], chain + [(f, b)], d - 1)
+    walk(entry, [], depth)
+    return out
+
+
+def pre_sites(chain):
+    """Calls that run before the append on every path and whose failure prevents it: at each level of the chain the calls that
+    dominate the next step and have it on their success arm."""
+    pre = []
+    for f, nb in chain:
+        nxt = Site(f, nb)
+        for b, t in f.calls():
+            s = Site(f, b)
+            if s.key() == nxt.key() or not f.dominates(s, nxt):
+                continue
+            arms = outcome_arms(f, s)
+            if arms["ok"] and in_arm(f, nxt, arms["ok"]):
+                pre.append((f, s, t))
+    return pre
+
+
 def r15a(ctx, P):
     rid = "R15.a"
     ctx.rule(rid, "AGREE: K = functions reachable from the segment build (write_segment_stream) that take the document / a JSON value "
@@ -62,25 +95,20 @@ def r15a(ctx, P):
             K.setdefault(root.path, []).extend(org)
             ctx.saw(f)
     ctx.floor(rid, len(K), 6, "document-content error origins in the segment build")
-    apps = [Site(add, b) for b, t in add.calls() if callee_of(t) == APPEND]
-    ctx.floor(rid + ".append", len(apps), 1, "Wal::append_add_doc in add_document")
-    # checks performed by add_document before the append
-    pre = []
-    for b, t in add.calls():
-        s = Site(add, b)
-        if not apps or not all(add.dominates(s, a) for a in apps):
-            continue
-        arms = outcome_arms(add, s)
-        if not arms["ok"] or not all(in_arm(add, a, arms["ok"]) for a in apps):
-            continue
-        pre.append((s, t))
-    covered = {}
-    for s, t in pre:
-        cal = callee_of(t)
-        r = {cal} | P.reach(cal)
-        for k in K:
-            if k in r:
-                covered.setdefault(k, s)
+    chains = append_chains(P, add)
+    ctx.floor(rid + ".append", len(chains), 1, "paths from add_document to Wal::append_add_doc")
+    # checks performed before the append on every such path
+    covered = None
+    for chain in chains:
+        cov = {}
+        for f, s, t in pre_sites(chain):
+            cal = callee_of(t)
+            r = {cal} | P.reach(cal)
+            for k in K:
+                if k in r:
+                    cov.setdefault(k, s)
+        covered = cov if covered is None else {k: v for k, v in covered.items() if k in cov}
+    covered = covered or {}
     for k, org in sorted(K.items()):
         f = P.fns[k]
         s = covered.get(k)
@@ -94,19 +122,22 @@ def r15b(ctx, P):
     rid = "R15.b"
     ctx.rule(rid, "ORDER: in add_document every fallible check precedes the WAL append, the queue push lies on the append's success "
                   "arm, and no Err path appends")
-    add = P.fn(ADD)
-    if add is None:
+    entry = P.fn(ADD)
+    if entry is None:
         return
-    sl = Slice(add)
-    apps = [Site(add, b) for b, t in add.calls() if callee_of(t) == APPEND]
-    pushes = [Site(add, b) for b, t in add.calls() if callee_of(t).endswith("Vec::<T, A>::push") and "pending_ops" in sl.fields(t["args"][0])]
-    for a in apps:
-        # fallible calls after the append other than the push
+    for chain in append_chains(P, entry):
+        add, ab = chain[-1]
+        a = Site(add, ab)
+        sl = Slice(add)
+        pushes = [Site(add, b) for b, t in add.calls() if callee_of(t).endswith("Vec::<T, A>::push") and "pending_ops" in sl.fields(t["args"][0])]
+        # fallible calls after the append (at any level of the chain) other than the push
         late = []
-        for b, t in add.calls():
-            s = Site(add, b)
-            if t["dst_ty"].startswith("core::result::Result<") and "try_trait" not in callee_of(t) and add.dominates(a, s) and s.key() != a.key():
-                late.append(s)
+        for f, nb in chain:
+            nxt = Site(f, nb)
+            for b, t in f.calls():
+                s = Site(f, b)
+                if t["dst_ty"].startswith("core::result::Result<") and "try_trait" not in callee_of(t) and f.dominates(nxt, s) and s.key() != nxt.key():
+                    late.append(s)
         ctx.ob(rid, "%s:add_document:no-fallible-step-after-append" % rid, not late,
                "nothing can fail between the WAL append and the queue push" if not late else
                "fallible call at %s runs after the document is already in the WAL" % late[0].loc(), a.loc())
@@ -115,14 +146,91 @@ def r15b(ctx, P):
                "the queue push is on the success arm of the append" if okp else "the queue push is not confined to the append's success arm", a.loc())
 
 
+def _unconditional_modulo_loops(f, cb):
+    """The call block is controlled only by error exits (`?`, early error returns) up to the enclosing loop-iteration test
+    (or the function entry): walk direct control dependences, stop at loop tests, continue through error exits, fail otherwise."""
+    from sa.rules.C13 import _is_error_exit_test
+    cd = f.control_deps()
+    seen, st = {cb}, [cb]
+    while st:
+        n = st.pop()
+        for (a, succ) in cd.get(n, ()):
+            t = f.blocks[a]["term"]
+            if t["k"] != "switch":
+                continue
+            if any("ForLoop" in m or "WhileLoop" in m for m in (t.get("macros") or [])):
+                continue
+            if not _is_error_exit_test(f, a):
+                return False
+            if a not in seen:
+                seen.add(a)
+                st.append(a)
+    return True
+
+
+def r15c(ctx, P):
+    rid = "R15.c"
+    ctx.rule(rid, "MUST (not may): a shared checker g is a function reaching a member of K that both sides call: the segment build from "
+                  "a function the add path does not use (at a site controlled only by the per-document loop and error exits), and the "
+                  "add path. For each shared checker, add_document's pre-append call performs g on EVERY path to its success return "
+                  "(recursive dominance), so that no shortcut (estimate, cache, fast path) can accept a document the build's run of g "
+                  "would reject")
+    stream, add = P.fn(STREAM), P.fn(ADD)
+    if stream is None or add is None:
+        return
+    chains = append_chains(P, add)
+    pres = [pre_sites(chain) for chain in chains]
+    A = set()
+    for pre in pres:
+        for f, s, t in pre:
+            cal = callee_of(t)
+            if cal in P.fns:
+                A |= {cal} | {q for q in P.reach(cal) if q in P.fns}
+    S = {STREAM} | {q for q in P.reach(STREAM) if q in P.fns}
+    K = set()
+    for q in S:
+        f = P.fns[q]
+        if f.crate == "searchlite_core" and not is_test_or_bench(f) and error_origins(f) and takes_document(P, f)[0]:
+            K.add(takes_document(P, f)[1].path)
+    B = S - A
+    J = {}
+    for h in sorted(B):
+        fh = P.fns[h]
+        for b, t in fh.calls():
+            g = callee_of(t)
+            if g in A and g in S and (g in K or K & P.reach(g)) and P.fns[g].crate == "searchlite_core":
+                if _unconditional_modulo_loops(fh, b):
+                    J.setdefault(g, Site(fh, b))
+    ctx.floor(rid, len(J), 2, "shared checkers (collect_document, encode_stored)")
+    from sa.prog import site_must_perform
+    for g, bsite in sorted(J.items()):
+        ok = bool(pres)
+        where = None
+        for pre in pres:
+            this = False
+            for f, s, t in pre:
+                if callee_of(t) == g or g in P.reach(callee_of(t)):
+                    where = where or s
+                    if site_must_perform(P, f, s.b, t, lambda c, g=g: c == g, 0, {}):
+                        this = True
+            ok = ok and this
+        ctx.ob(rid, "%s:must:%s" % (rid, P.fns[g].short), ok,
+               "%s runs on every accepting path of add_document (the build runs it per document at %s)" % (P.fns[g].short, bsite.loc()) if ok else
+               "add_document can accept a document without running %s (the call at %s reaches it only on some paths), while the segment "
+               "build runs it for every document at %s: a document can pass add_document and then fail every commit" % (
+                   P.fns[g].short, where.loc() if where else "?", bsite.loc()), where.loc() if where else bsite.loc())
+
+
 def run(ctx, progs):
     P = progs.get("default")
     r15a(ctx, P)
     r15b(ctx, P)
+    r15c(ctx, P)
     if ctx.tier == "thorough":
         ctx.config = "features"
         Pf = progs.get("features")
         r15a(ctx, Pf)
+        r15c(ctx, Pf)
         ctx.config = "default"
     ctx.assumptions += ["the content checks are deterministic functions of (schema, document): running them at add time predicts their "
                         "outcome at commit time (the schema of an index is fixed after creation)",
